@@ -39,6 +39,16 @@ const ipf = "pkg/util/ipfilter"
 // loop, with named results; constructors are resolved by signature. Mutants re-tried on refactored
 // forms: extracted cached branch without the chain test → R-C05-2; builder helper handing the
 // server chain to the paths → R-C05-3.
+//
+// Second iteration: the decision table is extracted under every completion of (allowed, blocked)
+// consistent with the path, so `if allowed == blocked {default}; return allowed` and a verdict
+// helper are read like the switch; the two tries are resolved by the spec list they are built from;
+// entries may be staged in a slice and inserted by a second loop, or parsed by a helper; filters
+// may live in a struct embedded in the three levels, be tested through nil-safe wrapper methods
+// (whose bodies are verified before they are trusted) and be built by a constructor of that struct
+// (symEval evaluates helper calls with their operands). Mutants re-tried: verdict helper with
+// swapped cases → R-C05-1; staging loop skipping an entry → R-C05-5; guard constructor dropping the
+// parent chain → R-C05-3; allowsChain always true / rule level testing the server guard → R-C05-2.
 func c05(c *core.Ctx) string {
 	c.Rule("R-C05-1", "decision table of IPFilter.Allow (exhaustive over parse ok / lookup errors / allowed / blocked): deny ⇔ (blocked ∧ ¬allowed) ∨ ((allowed ⇔ blocked) ∧ blockByDefault), default result on any parse/lookup error; IPFilters.Allow is the conjunction of its filters")
 	c.Rule("R-C05-2", "checks dominate dispatch: every uncached success return of the search has passed the server-, rule- and path-level filters; a failed test returns the 403 route immediately; a cached success route is returned only after its filter chain allowed the client (or the chain is nil)")
@@ -117,8 +127,10 @@ func c05Allow(c *core.Ctx) {
 	c.Check(defOK && ndef == 1, "R-C05-1", cons+"|default result = !blockByDefault", pos(c, f.Body), "defaultResult := !spec.BlockByDefault, assigned once",
 		"the default result is not the negation of blockByDefault (or is reassigned): addresses in neither/both lists get the wrong verdict")
 
-	// identify parse result, lookup results
-	var ipObj, allowedObj, blockedObj types.Object
+	// identify parse result, lookup results (the two prefix tries are resolved by the spec list
+	// they are built from, not by their names)
+	allowF, blockF := c05RangerField(c, "AllowIPs"), c05RangerField(c, "BlockIPs")
+	var ipID, aID, bID *ast.Ident
 	var errIDs []*ast.Ident
 	ast.Inspect(f.Body, func(n ast.Node) bool {
 		as, ok := n.(*ast.AssignStmt)
@@ -130,27 +142,22 @@ func c05Allow(c *core.Ctx) {
 			return true
 		}
 		if calleeFull(f, call) == "net.ParseIP" && len(as.Lhs) == 1 {
-			if id, ok := as.Lhs[0].(*ast.Ident); ok {
-				ipObj = f.Info.Defs[id]
-			}
+			ipID = muxIdentOf(as.Lhs[0])
 		}
 		if methodName(call) == "Contains" && len(as.Lhs) == 2 {
 			if sel, ok := ast.Unparen(call.Fun).(*ast.SelectorExpr); ok {
 				if s2, ok := ast.Unparen(sel.X).(*ast.SelectorExpr); ok {
-					id0, _ := as.Lhs[0].(*ast.Ident)
-					id1, _ := as.Lhs[1].(*ast.Ident)
+					id0, id1 := muxIdentOf(as.Lhs[0]), muxIdentOf(as.Lhs[1])
 					if id0 == nil || id1 == nil {
 						return true
 					}
-					obj := f.Info.Defs[id0]
-					if obj == nil {
-						obj = f.Info.Uses[id0]
-					}
-					switch s2.Sel.Name {
-					case "allowRanger":
-						allowedObj = obj
-					case "blockRanger":
-						blockedObj = obj
+					if sl := f.Info.Selections[s2]; sl != nil {
+						switch sl.Obj() {
+						case types.Object(allowF):
+							aID = id0
+						case types.Object(blockF):
+							bID = id0
+						}
 					}
 					errIDs = append(errIDs, id1)
 				}
@@ -158,25 +165,28 @@ func c05Allow(c *core.Ctx) {
 		}
 		return true
 	})
-	if ipObj == nil || allowedObj == nil || blockedObj == nil || len(errIDs) != 2 {
-		c.Undecide("R-C05-1", cons+"|decision table", pos(c, f.Body), "cannot identify ParseIP / allowRanger.Contains / blockRanger.Contains results")
+	if allowF == nil || blockF == nil || ipID == nil || aID == nil || bID == nil || len(errIDs) != 2 {
+		c.Undecide("R-C05-1", cons+"|decision table", pos(c, f.Body), "cannot identify ParseIP / allow-list Contains / block-list Contains results")
 		return
 	}
-	keyOf := func(obj types.Object, prefix string) string {
-		var key string
-		ast.Inspect(f.Body, func(n ast.Node) bool {
-			if id, ok := n.(*ast.Ident); ok && key == "" && (f.Info.Uses[id] == obj || f.Info.Defs[id] == obj) {
-				key = prefix + f.Render(id)
-			}
-			return true
-		})
-		return key
+	objOf := func(id *ast.Ident) types.Object {
+		if o := f.Info.Defs[id]; o != nil {
+			return o
+		}
+		return f.Info.Uses[id]
 	}
-	ipNil := keyOf(ipObj, "nil:")
-	aKey, bKey := keyOf(allowedObj, "v:"), keyOf(blockedObj, "v:")
+	ipNil := f.NilKey(ipID)
+	aKey, bKey := f.VarKey(aID), f.VarKey(bID)
+	eqKey := f.EqKey(aID, bID)
 	errNil := f.NilKey(errIDs[0])
+	fns := reach(f, 2)
+	vfA := newMuxFlow(fns)
+	for _, id := range []*ast.Ident{aID, bID} {
+		vfA.stop[objOf(id)] = true
+	}
+	vfA.stop[defObj] = true
 	// events: which lookups have been performed and whether one failed
-	res := analyze(c, f, flow.Config{NoHavoc: true,
+	res := muxAnalyzeInl(c, f, flow.Config{NoHavoc: true,
 		AfterAssume: func(st *flow.State, cond ast.Expr, outcome bool) {
 			if st.Is(errNil, flow.False) {
 				st.Set("ev:lookupFailed", flow.True)
@@ -186,9 +196,48 @@ func c05Allow(c *core.Ctx) {
 	if res == nil {
 		return
 	}
+	// value of a returned expression under a completion (av, bv) of the two lookups:
+	// "default", "true", "false" or "?"
+	var value func(st *flow.State, e ast.Expr, av, bv bool) string
+	boolStr := func(b bool) string {
+		if b {
+			return "true"
+		}
+		return "false"
+	}
+	value = func(st *flow.State, e ast.Expr, av, bv bool) string {
+		e = ast.Unparen(e)
+		if tv, has := f.Info.Types[e]; has && tv.Value != nil {
+			return tv.Value.ExactString()
+		}
+		if ue, ok := e.(*ast.UnaryExpr); ok && ue.Op == token.NOT {
+			switch value(st, ue.X, av, bv) {
+			case "true":
+				return "false"
+			case "false":
+				return "true"
+			}
+			return "?"
+		}
+		isVar := func(o types.Object) func(types.Object) bool {
+			return func(x types.Object) bool { return x == o }
+		}
+		switch {
+		case vfA.allPaths(e, false, isVar(defObj)):
+			return "default"
+		case vfA.allPaths(e, false, isVar(objOf(aID))):
+			return boolStr(av)
+		case vfA.allPaths(e, false, isVar(objOf(bID))):
+			return boolStr(bv)
+		}
+		if id := muxIdentOf(e); id != nil && st.Get(f.VarKey(id)) != flow.Unknown {
+			// a (named) result variable whose value is known on this path
+			return boolStr(st.Is(f.VarKey(id), flow.True))
+		}
+		return "?"
+	}
 	rows := map[string]string{}
 	ok := true
-	vfA := newMuxFlow([]*flow.Func{f})
 	for _, ex := range res.Exits {
 		if ex.Kind != flow.ExitReturn {
 			continue
@@ -198,63 +247,61 @@ func c05Allow(c *core.Ctx) {
 			continue
 		}
 		st := ex.State
-		got := "?"
-		if id, isID := r.(*ast.Ident); isID && (f.Info.Uses[id] == defObj || (muxIdentOf(vfA.through(id)) != nil && f.Info.Uses[muxIdentOf(vfA.through(id))] == defObj)) {
-			got = "default"
-		} else if tv, has := f.Info.Types[r]; has && tv.Value != nil {
-			got = tv.Value.ExactString()
-		} else if id, isID := r.(*ast.Ident); isID && st.Get(f.VarKey(id)) != flow.Unknown {
-			// a (named) result variable whose value is known on this path
-			got = map[bool]string{true: "true", false: "false"}[st.Is(f.VarKey(id), flow.True)]
-		}
-		if got == "?" {
-			c.Undecide("R-C05-1", cons+"|decision table", pos(c, ex.Ret()), "cannot resolve the verdict returned on this path")
-			ok = false
-			break
-		}
-		var want, row string
 		switch {
-		case st.Is(ipNil, flow.True):
-			want, row = "default", "unparsable address"
-		case st.Is("ev:lookupFailed", flow.True):
-			want, row = "default", "lookup error"
+		case st.Is(ipNil, flow.True), st.Is("ev:lookupFailed", flow.True):
+			row := "unparsable address"
+			if !st.Is(ipNil, flow.True) {
+				row = "lookup error"
+			}
+			got := value(st, r, false, false)
+			if got == "?" {
+				c.Undecide("R-C05-1", cons+"|decision table", pos(c, ex.Ret()), "cannot resolve the verdict returned on this path")
+				ok = false
+			} else if got != "default" {
+				ok = false
+				c.Violate("R-C05-1", cons+"|decision table", pos(c, ex.Ret()), sprintf("row [%s]: Allow returns %s, the property's table says default", row, got), witness(st)...)
+			}
+			rows[row] = got
 		default:
-			a, b := st.Get(aKey), st.Get(bKey)
-			// an unknown atom stands for both of its values: every completion must agree
-			// with the table
-			as, bs := []flow.Val{a}, []flow.Val{b}
-			if a == flow.Unknown {
-				as = []flow.Val{flow.True, flow.False}
-			}
-			if b == flow.Unknown {
-				bs = []flow.Val{flow.True, flow.False}
-			}
-			for _, av := range as {
-				for _, bv := range bs {
-					w := "default"
+			// an unknown atom stands for both of its values: every completion consistent with
+			// what the path has learned must agree with the table
+			for _, av := range []bool{true, false} {
+				for _, bv := range []bool{true, false} {
+					if a := st.Get(aKey); a != flow.Unknown && (a == flow.True) != av {
+						continue
+					}
+					if b := st.Get(bKey); b != flow.Unknown && (b == flow.True) != bv {
+						continue
+					}
+					if e := st.Get(eqKey); e != flow.Unknown && (e == flow.True) != (av == bv) {
+						continue
+					}
+					want := "default"
 					switch {
-					case av == flow.True && bv == flow.True:
-						w = "default"
-					case av == flow.True:
-						w = "true"
-					case bv == flow.True:
-						w = "false"
+					case av && bv:
+					case av:
+						want = "true"
+					case bv:
+						want = "false"
 					}
-					r := "allowed=" + av.String() + ",blocked=" + bv.String()
-					if want == "" || got != w {
-						want, row = w, r
+					row := "allowed=" + boolVal(av) + ",blocked=" + boolVal(bv)
+					got := value(st, r, av, bv)
+					if got == "?" {
+						c.Undecide("R-C05-1", cons+"|decision table", pos(c, ex.Ret()), "cannot resolve the verdict returned on this path")
+						ok = false
+						continue
 					}
-					if got == w {
-						rows[r] = got
+					rows[row] = got
+					if got != want && ok {
+						ok = false
+						c.Violate("R-C05-1", cons+"|decision table", pos(c, ex.Ret()),
+							sprintf("row [%s]: Allow returns %s, the property's table says %s", row, got, want), witness(st)...)
 					}
 				}
 			}
 		}
-		rows[row] = got
-		if got != want {
-			ok = false
-			c.Violate("R-C05-1", cons+"|decision table", pos(c, ex.Ret()),
-				sprintf("row [%s]: Allow returns %s, the property's table says %s", row, got, want), witness(st)...)
+		if !ok {
+			break
 		}
 	}
 	need := []string{"unparsable address", "lookup error", "allowed=T,blocked=T", "allowed=T,blocked=F", "allowed=F,blocked=T", "allowed=F,blocked=F"}
@@ -266,6 +313,73 @@ func c05Allow(c *core.Ctx) {
 	if ok {
 		c.Discharge("R-C05-1", cons+"|decision table", pos(c, f.Body), sprintf("all %d rows enumerated and equal to the property's table: %v", len(rows), rows))
 	}
+}
+
+func boolVal(b bool) string {
+	if b {
+		return "T"
+	}
+	return "F"
+}
+
+// c05RangerField resolves the prefix-trie field of IPFilter that is built from the given list of
+// the spec (AllowIPs / BlockIPs): the field whose initial value (composite literal entry or
+// assignment) mentions spec.<list>.
+func c05RangerField(c *core.Ctx, list string) *types.Var {
+	pkg := c.Prog.Pkg(ipf)
+	ft := namedType(c, ipf, "IPFilter")
+	if pkg == nil || ft == nil {
+		return nil
+	}
+	info := pkg.TypesInfo
+	mentions := func(e ast.Expr) bool {
+		found := false
+		ast.Inspect(e, func(n ast.Node) bool {
+			if sel, ok := n.(*ast.SelectorExpr); ok && sel.Sel.Name == list {
+				found = true
+			}
+			return !found
+		})
+		return found
+	}
+	found := map[*types.Var]bool{}
+	for _, file := range pkg.Syntax {
+		ast.Inspect(file, func(n ast.Node) bool {
+			switch x := n.(type) {
+			case *ast.CompositeLit:
+				if tv, ok := info.Types[x]; ok && muxSameNamed(muxDerefNamed(tv.Type), ft) {
+					for _, el := range x.Elts {
+						if kv, ok := el.(*ast.KeyValueExpr); ok && mentions(kv.Value) {
+							if k, ok := kv.Key.(*ast.Ident); ok {
+								if fv := muxOneField(ft, k.Name, func(v *types.Var) bool { return v.Name() == k.Name }); fv != nil {
+									found[fv] = true
+								}
+							}
+						}
+					}
+				}
+			case *ast.AssignStmt:
+				if len(x.Lhs) == len(x.Rhs) {
+					for i, l := range x.Lhs {
+						if sel, ok := ast.Unparen(l).(*ast.SelectorExpr); ok && mentions(x.Rhs[i]) {
+							if sl := info.Selections[sel]; sl != nil && muxSameNamed(muxDerefNamed(sl.Recv()), ft) {
+								if fv, ok := sl.Obj().(*types.Var); ok {
+									found[fv] = true
+								}
+							}
+						}
+					}
+				}
+			}
+			return true
+		})
+	}
+	if len(found) == 1 {
+		for fv := range found {
+			return fv
+		}
+	}
+	return nil
 }
 
 func c05Conj(c *core.Ctx) {
@@ -405,31 +519,46 @@ func c05Search(c *core.Ctx, s *searchInfo) {
 	c.Check(bad == nil, "R-C05-2", s.cons+"|three filter levels dominate the success return", pos(c, badAt),
 		sprintf("%d success exits passed server, rule and path filters; %d 403 exits each follow a denying filter", success, forb), why, witness(bad)...)
 
-	// a denying test must return 403 at once: no state continues past a false allowIP
-	var leak *flow.State
-	for n, sts := range s.res.At {
-		if _, ok := n.(*ast.CallExpr); ok {
-			continue
+	// a denying test must return 403 at once: once a filter denied the client no further entry is
+	// consulted (no matcher, filter, cache lookup or cache put is evaluated) and the search returns 403
+	denied := func(st *flow.State) bool {
+		if st.Is(evHit, flow.True) {
+			return false
 		}
-		for _, st := range sts {
-			if st.Is(evHit, flow.True) {
-				continue
+		for _, lv := range levels {
+			if s.allowed(st, lv) == flow.False {
+				return true
 			}
-			for _, lv := range levels {
-				if s.allowed(st, lv) == flow.False {
-					// allowed only at a return statement of the 403 route
-					if rs, ok := n.(*ast.ReturnStmt); ok && len(rs.Results) == 1 {
-						if s.codeByFact(st, rs.Results[0]) == "403" || s.routeExprKind(rs.Results[0], false) == "403" {
-							continue
-						}
-					}
-					leak = st
-				}
+		}
+		return false
+	}
+	var leak *flow.State
+	var roleCalls []*ast.CallExpr
+	for _, list := range [][]*ast.CallExpr{s.hostMatch, s.pathMatch, s.methodMatch, s.headerMatch, s.gets} {
+		roleCalls = append(roleCalls, list...)
+	}
+	for _, lv := range levels {
+		for _, a := range s.allow[lv] {
+			roleCalls = append(roleCalls, a.call)
+		}
+	}
+	for _, p := range s.puts {
+		roleCalls = append(roleCalls, p.call)
+	}
+	for _, call := range roleCalls {
+		for _, st := range s.res.At[call] {
+			if denied(st) {
+				leak = st
 			}
 		}
 	}
+	for _, ex := range s.res.Exits {
+		if ex.Kind == flow.ExitReturn && denied(ex.State) && s.exitKind(ex) != "403" {
+			leak = ex.State
+		}
+	}
 	c.Check(leak == nil, "R-C05-2", s.cons+"|a denying filter ends the search with 403", pos(c, s.outer.stmt),
-		"no statement other than `return forbidden` is reachable once a filter denied the client", "the search continues after an IP filter denied the client", witness(leak)...)
+		"once a filter denied the client nothing but the return of the 403 route follows", "the search continues after an IP filter denied the client", witness(leak)...)
 
 	// hit path
 	var badHit *flow.State
@@ -527,6 +656,103 @@ func c05RangerBuilder(f *flow.Func) *flow.Func {
 	return f
 }
 
+// c05ParseVars finds the variable holding net.ParseIP's result and the error variable of
+// net.ParseCIDR in the ranger builder or a same-package helper it calls.
+func c05ParseVars(body *flow.Func) (ipID, errID *ast.Ident) {
+	inspectReach(body, 2, func(g *flow.Func, n ast.Node) bool {
+		as, ok := n.(*ast.AssignStmt)
+		if !ok || len(as.Rhs) != 1 {
+			return true
+		}
+		if call, ok := ast.Unparen(as.Rhs[0]).(*ast.CallExpr); ok {
+			switch calleeFull(g, call) {
+			case "net.ParseIP":
+				ipID = muxIdentOf(as.Lhs[0])
+			case "net.ParseCIDR":
+				if len(as.Lhs) == 3 {
+					errID = muxIdentOf(as.Lhs[2])
+				}
+			}
+		}
+		return true
+	})
+	return
+}
+
+// c05Sinks returns the calls that commit an entry to the ranger: the Insert calls, or — when the
+// entries are first staged in a local slice that a plain loop then inserts element by element —
+// the appends to that slice. ok is false when a staging slice is not inserted that way.
+func c05Sinks(body *flow.Func) (sinks []*ast.CallExpr, ok bool) {
+	sinks, ok, _ = c05SinksX(body)
+	return
+}
+
+// c05SinksX additionally reports a staging loop that does not visit every staged element in
+// order (partial != nil): staged entries are dropped.
+func c05SinksX(body *flow.Func) (sinks []*ast.CallExpr, ok bool, partial ast.Node) {
+	vf := newMuxFlow([]*flow.Func{body})
+	ok = true
+	for _, call := range calls(body.Body, false) {
+		if !c05IsInsert(body, call) {
+			continue
+		}
+		staged := false
+		// Insert(NewBasicRangerEntry(xs[i])) / Insert(NewBasicRangerEntry(x)) with x ranging over xs
+		var elem ast.Expr
+		ast.Inspect(call, func(n ast.Node) bool {
+			switch x := n.(type) {
+			case *ast.IndexExpr:
+				elem = x
+			case *ast.Ident:
+				if o, isVar := vf.obj(x).(*types.Var); isVar {
+					for _, d := range vf.defs[o] {
+						if d.rng != nil && !d.isKey {
+							elem = x
+						}
+					}
+				}
+			}
+			return true
+		})
+		if elem != nil {
+			for _, l := range vf.loops("staging", func(x ast.Expr) bool {
+				tv, has := body.Info.Types[x]
+				return has && tv.Type != nil && strings.HasSuffix(tv.Type.String(), "[]net.IPNet") && muxIdentOf(x) != nil
+			}) {
+				if !contains(l.stmt, call) || !l.isElem(vf, elem) {
+					continue
+				}
+				staged = true
+				// a plain loop: in order, no early exit, the Insert is a statement of the loop body itself
+				direct := false
+				for _, stmt := range l.body().List {
+					if es, isExpr := stmt.(*ast.ExprStmt); isExpr && ast.Unparen(es.X) == ast.Expr(call) {
+						direct = true
+					}
+				}
+				if !direct {
+					ok = false
+				}
+				if !l.ordered || len(breaksOut(body, l.stmt, labelOf(body.Body, l.stmt))) > 0 {
+					partial = l.stmt
+				}
+				slice := vf.obj(muxIdentOf(l.over))
+				for _, ap := range calls(body.Body, false) {
+					if b, isB := body.Callee(ap).(*types.Builtin); isB && b.Name() == "append" && len(ap.Args) >= 2 {
+						if id := muxIdentOf(ap.Args[0]); id != nil && vf.obj(id) == slice {
+							sinks = append(sinks, ap)
+						}
+					}
+				}
+			}
+		}
+		if !staged {
+			sinks = append(sinks, call)
+		}
+	}
+	return sinks, ok, partial
+}
+
 func c05New(c *core.Ctx) {
 	f := fn(c, ipf, "", "New")
 	if f == nil {
@@ -535,13 +761,12 @@ func c05New(c *core.Ctx) {
 	cons := fname(ipf, "", "New")
 	// the closure (or helper function) building a ranger
 	body := c05RangerBuilder(f)
-	var inserts []*ast.CallExpr
-	for _, call := range calls(body.Body, false) {
-		if c05IsInsert(f, call) {
-			inserts = append(inserts, call)
-		}
+	inserts, stagingOK := c05Sinks(body)
+	if !stagingOK {
+		c.Undecide("R-C05-5", cons+"|entries come from successful parses", pos(c, body.Body), "the entries are staged in a slice that is not inserted element by element by a plain loop")
+		return
 	}
-	if !c.RequireCount("R-C05-5", "ranger.Insert call sites in ipfilter.New", len(inserts), 2) {
+	if !c.RequireCount("R-C05-5", "ranger.Insert call sites in ipfilter.New", len(inserts), 1) {
 		return
 	}
 	// masks: package-level vars = net.CIDRMask(32,32) / (128,128)
@@ -574,31 +799,14 @@ func c05New(c *core.Ctx) {
 			}
 		}
 	}
-	var ipID, errID *ast.Ident
 	var maskObj types.Object
-	ast.Inspect(body.Body, func(n ast.Node) bool {
-		as, ok := n.(*ast.AssignStmt)
-		if !ok || len(as.Rhs) != 1 {
-			return true
-		}
-		if call, ok := ast.Unparen(as.Rhs[0]).(*ast.CallExpr); ok {
-			switch calleeFull(f, call) {
-			case "net.ParseIP":
-				ipID, _ = as.Lhs[0].(*ast.Ident)
-			case "net.ParseCIDR":
-				if len(as.Lhs) == 3 {
-					errID, _ = as.Lhs[2].(*ast.Ident)
-				}
-			}
-		}
-		return true
-	})
+	ipID, errID := c05ParseVars(body)
 	if ipID == nil || errID == nil {
 		c.Violate("R-C05-5", cons+"|entries come from successful parses", pos(c, body.Body), "the ranger is not filled from net.ParseIP / net.ParseCIDR results")
 		return
 	}
 	ipNil, errNil := body.NilKey(ipID), body.NilKey(errID)
-	res := analyze(c, body, flow.Config{NoHavoc: true,
+	res := muxAnalyzeInl(c, body, flow.Config{NoHavoc: true,
 		OnNode: func(st *flow.State, n ast.Node) {
 			// a net.IPNet literal whose Mask is one of the all-ones masks (`net.IPNet{IP: ip4, Mask: allOnesIPv4Mask}`)
 			ast.Inspect(n, func(m ast.Node) bool {
@@ -665,6 +873,16 @@ func c05New(c *core.Ctx) {
 				bad, why = st, "an entry is inserted although neither net.ParseIP returned an address nor net.ParseCIDR succeeded"
 			}
 		}
+	}
+	sawIP, sawCIDR := false, false
+	for _, ins := range inserts {
+		for _, st := range res.At[ins] {
+			sawIP = sawIP || st.Is(ipNil, flow.False)
+			sawCIDR = sawCIDR || (st.Is(ipNil, flow.True) && st.Is(errNil, flow.True))
+		}
+	}
+	if bad == nil && !(sawIP && sawCIDR) {
+		c.Errorf("R-C05-5: vacuity guard: the insert sites of ipfilter.New are not reached both with a parsed address and with a parsed CIDR (address %v, CIDR %v)", sawIP, sawCIDR)
 	}
 	c.Check(bad == nil, "R-C05-5", cons+"|entries come from successful parses", pos(c, body.Body), sprintf("%d insert sites, all on a successful-parse path", len(inserts)), why, witness(bad)...)
 	// mask choice: the single-address branch must be able to reach the insert with both masks,
